@@ -49,7 +49,7 @@ macro_rules! hint_windowed {
                 (Ok(h), Some(hs)) => {
                     let p: usize = kani::any();
                     kani::assume(p < 256);
-                    kani::assert(h[0].0[p] == hs[0][p] as i32 && h[1].0[p] == hs[1][p] as i32, "C08: decoded hint differs from Algorithm 21");
+                    kani::assert(h[0].0[p] == hs[0][p] as i32 && h[1].0[p] == hs[1][p] as i32, "C08/C02/C05: decoded hint differs from Algorithm 21");
                     kani::cover!(h[1].0[p] == 1);
                     kani::cover!(y[OMEGA] == 0 && y[OMEGA + 1] == OMEGA as u8);
                     core::mem::forget(h);
@@ -58,11 +58,11 @@ macro_rules! hint_windowed {
                     kani::cover!(y[OMEGA] <= y[OMEGA + 1] && y[OMEGA + 1] <= OMEGA as u8);
                 }
                 (Ok(h), None) => {
-                    kani::assert(false, "C08: malformed hint section accepted (Algorithm 21 returns bottom)");
+                    kani::assert(false, "C08/C02/C05: malformed hint section accepted (Algorithm 21 returns bottom)");
                     core::mem::forget(h);
                 }
                 (Err(_), Some(_)) => {
-                    kani::assert(false, "C08: well-formed hint section rejected");
+                    kani::assert(false, "C08/C02/C01: well-formed hint section rejected");
                 }
             }
         }
@@ -118,7 +118,7 @@ fn c08_hint_exhaustive_k2_w4() {
         (Ok(h), Some(hs)) => {
             let p: usize = kani::any();
             kani::assume(p < 256);
-            kani::assert(h[0].0[p] == hs[0][p] as i32 && h[1].0[p] == hs[1][p] as i32, "C08: decoded hint differs from Algorithm 21");
+            kani::assert(h[0].0[p] == hs[0][p] as i32 && h[1].0[p] == hs[1][p] as i32, "C08/C02/C05: decoded hint differs from Algorithm 21");
             kani::cover!(h[0].0[p] == 1);
             core::mem::forget(h);
         }
@@ -126,11 +126,11 @@ fn c08_hint_exhaustive_k2_w4() {
             kani::cover!(true);
         }
         (Ok(h), None) => {
-            kani::assert(false, "C08: malformed hint section accepted (Algorithm 21 returns bottom)");
+            kani::assert(false, "C08/C02/C05: malformed hint section accepted (Algorithm 21 returns bottom)");
             core::mem::forget(h);
         }
         (Err(_), Some(_)) => {
-            kani::assert(false, "C08: well-formed hint section rejected");
+            kani::assert(false, "C08/C02/C01: well-formed hint section rejected");
         }
     }
 }
